@@ -223,6 +223,12 @@ def derive_tables(src):
         if not regs:
             return "raw"
         return "first" if regs[0] < muts[0] else "late"
+    if T["Model.solver"] == "raw":
+        # not @resettable (repair a887c04): the setter records its own undo (the old solver object is put back)
+        # before it replaces self._solver
+        fs = src.funcs[("model", "Model", "solver.setter")]
+        T["Model.solver"] = recorded(fs, lambda st: isinstance(st, ast.Assign) and "self._solver" in
+                                     [ast.unparse(t) for t in st.targets])
     for nm, meth in (("add_cons_vars_to_problem", "add"), ("remove_cons_vars_from_problem", "remove")):
         f = src.funcs[("solver", None, nm)]
         T[nm] = recorded(f, lambda st, meth=meth: ("model.solver.%s(" % meth) in ast.unparse(st)
